@@ -12,8 +12,9 @@ ID = 'C08'
 RULE = ('tables from tables.rand_spec (dims 1..4, layout recipes incl. unsorted indices / stored zeros / CSC) x '
         '{filter by id collection (list/tuple/set/array, any order, invert, unknown ids), filter by predicate from a finite '
         'family over values/id/metadata (arguments recorded), remove_empty on sample/observation/whole, head(n,m)} x axis x inplace; '
+        'in 35 % of the cases after a HISTORY of one or two earlier id filters (same or other axis, in place or not); metadata kinds incl. entries whose values are all falsy; every call also observed for: result is / is not the receiver as inplace says, receiver of a non-in-place call unchanged; '
         'plus the arrays the compiled kernel actually received replayed through the model of its rebuild loop; '
-        'thorough adds every matrix over {0,1,2} up to 2x3 x every subset x invert x axis; '
+        'thorough adds every matrix over {0,1,2} of shape 1x2..3x2 and every 27th 3x3 x every subset x invert x axis x inplace, remove_empty, head; '
         'non-trivial = table with >= 2 ids on the filtered axis and a selection that is neither empty nor everything; distinct by case hash')
 TRUSTED = ['hand-written model coq/Model/Filter.v tied to biom/table.py + biom/_filter.pyx by this correspondence run',
            'compiled kernels are the shipped .so (Cython absent); when a .pyx differs from the pinned hash the harness runs the interpreted source instead (tools/decython.py)']
@@ -68,6 +69,34 @@ def _coll(kind, ids):
     raise ValueError(kind)
 
 
+def _eff(c):
+    """the content the measured operation starts from: the spec, after the HISTORY of earlier filters the case
+    prescribes (reference computed here, the implementation performs them for real)"""
+    spec = c['spec']
+    for ax, bits, inplace in c.get('pre', []):
+        ids = spec['oids'] if ax == 'observation' else spec['sids']
+        mask = [bool((bits >> n) & 1) for n in range(len(ids))]
+        ref = _ref_filter(spec, ax, mask)
+        spec = dict(spec, oids=ref['oids'], sids=ref['sids'], omd=ref['omd'], smd=ref['smd'],
+                    mat=ref['mat'] if ref['oids'] and ref['sids'] else [[0.0] * len(ref['sids']) for _ in ref['oids']])
+    return spec
+
+
+def _history(c, t):
+    for ax, bits, inplace in c.get('pre', []):
+        ids = list(t.ids(axis=ax))
+        keep = [i for n, i in enumerate(ids) if (bits >> n) & 1]
+        t = t.filter(keep, axis=ax, inplace=inplace)
+    return t
+
+
+def _flags(c, t, r, before, inplace):
+    """[the result is (inplace) / is not (otherwise) the receiver, the receiver of a non-in-place call is unchanged]"""
+    if inplace:
+        return ['flags', r is t, True]
+    return ['flags', r is not t, canon(T.norm_snap(T.snapshot(t))) == canon(T.norm_snap(before))]
+
+
 def run_impl(c):
     try:
         return _run_impl(c)
@@ -76,15 +105,15 @@ def run_impl(c):
 
 
 def _run_impl(c):
-    t = T.build(c['spec'])
+    t = _history(c, T.build(c['spec']))
     k = c['kind']
+    before = T.snapshot(t)
     if k == 'ids':
-        before = T.snapshot(t)
         try:
             r = t.filter(_coll(c['ctype'], c['keep']), axis=c['axis'], invert=c['invert'], inplace=c['inplace'])
         except Exception as e:
             return ['err', T.err_code(e), T.norm_snap(T.snapshot(t)) == T.norm_snap(before)]
-        return ['ok', T.norm_snap(T.snapshot(r))]
+        return ['ok', T.norm_snap(T.snapshot(r)), _flags(c, t, r, before, c['inplace'])]
     if k == 'pred':
         calls = []
         f = PREDS[c['pred']]
@@ -108,16 +137,17 @@ def _run_impl(c):
         out = ['ok', T.norm_snap(T.snapshot(r)), calls]
         if c.get('kernel'):
             out.append([x[0] for x in calls])
+        out.append(_flags(c, t, r, before, c['inplace']))
         return out
     if k == 'remove_empty':
         r = t.remove_empty(axis=c['axis'], inplace=c['inplace'])
-        return ['ok', T.norm_snap(T.snapshot(r))]
+        return ['ok', T.norm_snap(T.snapshot(r)), _flags(c, t, r, before, c['inplace'])]
     if k == 'head':
         try:
             r = t.head(c['n'], c['m'])
         except Exception as e:
             return ['err', 9 if isinstance(e, IndexError) else T.err_code(e)]
-        return ['ok', T.norm_snap(T.snapshot(r))]
+        return ['ok', T.norm_snap(T.snapshot(r)), _flags(c, t, r, before, False)]
     raise ValueError(k)
 
 
@@ -125,9 +155,12 @@ def _coder(c):
     return T.Coder(T.spec_universe(c['spec']) + list(c.get('keep', [])))
 
 
+FLAGS_OK = ['flags', True, True]
+
+
 def encode(c):
     cd = _coder(c)
-    tb = cd.table(T.spec_content(c['spec']))
+    tb = cd.table(T.norm_snap(T.spec_content(_eff(c))))
     k = c['kind']
     if k == 'ids':
         return [0, tb, [cd.id(i) for i in c['keep']], int(c['invert']), AX[c['axis']]]
@@ -162,7 +195,7 @@ def _md_at(md, i):
 
 def _verdicts(c):
     """what the predicate answers on the TRUE vectors (reference, independent of the library)"""
-    vecs, ids, md = _vectors(c['spec'], c['axis'])
+    vecs, ids, md = _vectors(_eff(c), c['axis'])
     f = PREDS[c['pred']]
     return [bool(f(v, i, _md_at(md, k))) for k, (v, i) in enumerate(zip(vecs, ids))]
 
@@ -173,7 +206,7 @@ def decode(tree, c):
     if k == 'ids':
         if tree[0] == -1:
             return ['err', tree[1], True]
-        return ['ok', T.norm_snap(cd.untable(tree[1]))]
+        return ['ok', T.norm_snap(cd.untable(tree[1])), FLAGS_OK]
     if k == 'pred':
         kern = None
         if c.get('kernel'):
@@ -183,13 +216,14 @@ def decode(tree, c):
         out = ['ok', T.norm_snap(cd.untable(tree[0])), calls]
         if kern is not None:
             out.append([[cd.unval(v) for v in row] for row in kern])
+        out.append(FLAGS_OK)
         return out
     if k == 'remove_empty':
-        return ['ok', T.norm_snap(cd.untable(tree))]
+        return ['ok', T.norm_snap(cd.untable(tree)), FLAGS_OK]
     if k == 'head':
         if tree[0] == -1:
             return ['err', tree[1]]
-        return ['ok', T.norm_snap(cd.untable(tree[1]))]
+        return ['ok', T.norm_snap(cd.untable(tree[1])), FLAGS_OK]
 
 
 # ---------------------------------------------------------------- oracle
@@ -220,8 +254,14 @@ def oracle(c, obs):
     if obs and obs[0] == 'crash':
         return ['implementation crashed: %s' % obs[1:]]
     k = c['kind']
-    spec = c['spec']
+    spec = _eff(c)
     fails = []
+    if obs[0] == 'ok' and obs[-1][0] == 'flags' and obs[-1] != FLAGS_OK:
+        if not obs[-1][1]:
+            fails.append('the call returned %s' % ('a new table although inplace=True' if c.get('inplace') else
+                                                   'the receiver itself although a new table was asked for'))
+        if not obs[-1][2]:
+            fails.append('the receiver of a non-in-place call changed')
     if k == 'ids':
         ids = spec['oids'] if c['axis'] == 'observation' else spec['sids']
         unknown = [i for i in c['keep'] if i not in ids]
@@ -272,8 +312,24 @@ def oracle(c, obs):
 # ---------------------------------------------------------------- generation
 def gen_case(rng, spec=None):
     spec = spec or T.rand_spec(rng, max_r=4, max_c=4, values=rng.choice(['counts', 'small', 'signed', 'dyadic']),
-                               md=rng.choice(['none', 'group', 'group', 'text', 'obs', 'samp', 'partial', 'partial']), ttype=rng.choice([None, 'OTU table']))
+                               md=rng.choice(['none', 'group', 'group', 'text', 'obs', 'samp', 'partial', 'partial', 'falsy', 'falsy']), ttype=rng.choice([None, 'OTU table']))
     axis = rng.choice(['observation', 'sample'])
+    c = _gen_op(rng, spec, axis)
+    if rng.random() < 0.35:
+        # a history of one or two earlier id filters (prior histories: stale lookups, layouts, normalised metadata)
+        pre = []
+        for _ in range(rng.choice([1, 1, 2])):
+            pre.append([rng.choice([axis, axis, 'sample' if axis == 'observation' else 'observation']), rng.getrandbits(4) | rng.choice([1, 2, 4]),
+                        rng.random() < 0.5])
+        c['pre'] = pre
+        eff = _eff(c)
+        ids = eff['oids'] if axis == 'observation' else eff['sids']
+        if c['kind'] == 'ids':
+            c['keep'] = [i for i in c['keep'] if i in ids or i not in (spec['oids'] + spec['sids']) or rng.random() < 0.15]
+    return c
+
+
+def _gen_op(rng, spec, axis):
     ids = spec['oids'] if axis == 'observation' else spec['sids']
     r = rng.random()
     if r < 0.4:
@@ -337,7 +393,7 @@ def gen(rng, tier):
 
 
 def nontrivial(c):
-    ids = c['spec']['oids'] if c.get('axis') == 'observation' else c['spec']['sids']
+    ids = _eff(c)['oids'] if c.get('axis') == 'observation' else _eff(c)['sids']
     if c['kind'] == 'ids':
         return len(ids) >= 2 and 0 < len(set(c['keep']) & set(ids)) < len(ids)
     if c['kind'] == 'pred':
@@ -359,10 +415,20 @@ def classify(c):
             tags.append('unknown-id')
     if c['kind'] == 'pred':
         tags.append('pred:' + c['pred'])
+    tags.append('history:%d' % len(c.get('pre') or []))
+    for md in (c['spec'].get('omd'), c['spec'].get('smd')):
+        if md and any(x and not any(x.values()) for x in md):
+            tags.append('md:all-falsy-entry')
+            break
     return tags
 
 
 def shrink(c):
+    pre = c.get('pre') or []
+    for i in range(len(pre)):
+        yield dict(c, pre=pre[:i] + pre[i + 1:])
+    if pre:
+        return            # ids named by the case refer to the table after the history: shrink the history first
     s = c['spec']
     r, k = len(s['oids']), len(s['sids'])
     for i in range(r):
